@@ -21,7 +21,7 @@ from .. import engine, tlc
 SPEC = os.path.join(engine.VERIF, 'specs', 'p2p')
 DROP = ('res',)
 WORKERS = int(os.environ.get('VERIF_TLC_WORKERS') or 4)
-PAR = os.environ.get('VERIF_P2P_PAR') or '6'
+PAR = os.environ.get('VERIF_P2P_PAR') or '6'  # RERUNS below assumes a couple of rounds at most
 # development aid: VERIF_C20_ONLY=secretconn|mconn|admission restricts a run to one of the three specifications
 ONLY = (os.environ.get('VERIF_C20_ONLY') or '').lower()
 SPECNAME = {'secretconn': 'SecretConn', 'mconn': 'MConn', 'admission': 'Admission'}
@@ -208,10 +208,14 @@ def selftests(ctx, sc, mc, adm):
             ctx.inconclusive.append('binding self-test %s: corrupted expectation was %s' % (k, v))
 
 
+RERUNS = 12
+
+
 def confirm_timeouts(ctx, rep, traces):
-    """A failure that is a timeout is only kept when the same behaviour times out again, twice, when run alone;
-    otherwise it is reported as inconclusive (a slow machine must never turn into a verdict).  One behaviour per
-    failure key is re-run; the others with that key share its fate."""
+    """A failure that is a timeout ("an accepted message / the expected error did not arrive within 20 s") is only
+    kept as a verdict when the same behaviour shows it again in isolation: the behaviour is re-run RERUNS times, alone,
+    with the wait more than doubled (45 s).  No recurrence => inconclusive (a slow machine must never turn into a
+    verdict).  One behaviour per failure key is re-run; the others with that key share its fate."""
     keep = []
     verdict = {}
     for f in (rep.get('failures') or []):
@@ -219,27 +223,28 @@ def confirm_timeouts(ctx, rep, traces):
             keep.append(f)
             continue
         key = f.get('key')
-        if key not in verdict:
-            ti = f.get('trace', 0)
-            again = 0
-            for _ in range(2):
-                r2 = run_p2p(ctx, [traces[ti]])
-                if any(g.get('kind') == 'timeout' and g.get('key') == key for g in (r2.get('failures') or [])):
-                    again += 1
-                else:
-                    break
-            verdict[key] = again
-            ctx.log('timeout %s (%s) re-run alone: timed out %d of 2 times' % (key, f.get('trace_id'), again))
-            if again == 2 and f.get('property'):
-                f['detail'] = (f.get('detail') or '') + ' [timed out again in 2 of 2 isolated re-runs]'
-                keep.append(f)
-            elif again:
-                f['property'] = False
-                f['detail'] = (f.get('detail') or '') + ' [re-run alone: timed out %d of 2 times]' % again
-                keep.append(f)
-            else:
-                ctx.notes.append('timeout that did not reproduce: %s %s' % (key, f.get('trace_id')))
-                ctx.inconclusive.append('timeout that did not reproduce when the behaviour was run alone: %s' % key)
+        if key in verdict:
+            continue
+        ti = f.get('trace', 0)
+        copies = []
+        for j in range(RERUNS):
+            c = copy.deepcopy(traces[ti])
+            c['cfg']['wait_s'] = 45
+            c['id'] = '%s-rerun-%d' % (c.get('id'), j)
+            copies.append(c)
+        r2 = run_p2p(ctx, copies)
+        again = sum(1 for g in (r2.get('failures') or []) if g.get('kind') == 'timeout' and g.get('key') == key)
+        verdict[key] = again
+        ctx.log('timeout %s (%s) re-run alone %d times with a 45 s wait: recurred %d times' % (key, f.get('trace_id'), RERUNS, again))
+        if again and f.get('property'):
+            f['detail'] = (f.get('detail') or '') + ' [recurred in %d of %d isolated re-runs with a 45 s wait]' % (again, RERUNS)
+            keep.append(f)
+        elif again:
+            f['detail'] = (f.get('detail') or '') + ' [recurred in %d of %d isolated re-runs]' % (again, RERUNS)
+            keep.append(f)
+        else:
+            ctx.notes.append('timeout that did not recur: %s %s %s' % (key, f.get('trace_id'), (f.get('detail') or '')[:300]))
+            ctx.inconclusive.append('timeout that did not recur when the behaviour was re-run alone %d times: %s' % (RERUNS, key))
     rep['failures'] = keep
 
 
@@ -307,6 +312,17 @@ def run(ctx, replay=None):
     ctx.log('mconn workloads: %d distinct of %d simulated' % (len(mc), len(sims)))
     ctx.rng.shuffle(mc)
     mc = mc[:150 if quick else 600]
+    # an empty message next to traffic on the other channel is decided by scheduling inside sendMsgPacket: run those
+    # workloads several times
+    extra = []
+    for t in mc:
+        st = t['steps']
+        if any(s['args'][1] == 0 for s in st) and len({s['args'][0] for s in st}) > 1:
+            for j in range(3):
+                c = copy.deepcopy(t)
+                c['rep'] = j + 1
+                extra.append(c)
+    mc += extra
     tampers = ['flip', 'drop', 'dup']
     for k, t in enumerate(mc):
         mode = k % 5
@@ -315,6 +331,9 @@ def run(ctx, replay=None):
         if mode == 4:
             t['cfg']['tamper'] = {'op': tampers[(k // 5) % 3], 'frame': (k // 15) % 3}
         t['id'] = 'mconn-sim-%d-%d' % (seed, k)
+        if t.pop('rep', 0):
+            t['cfg']['wrap'] = 'plain'
+            t['cfg'].pop('tamper', None)
     if not quick and mc:
         # the default capacity of a channel (21 MB): one message at the limit, one byte over
         big = 22020096
